@@ -1,11 +1,531 @@
-// Package c18 is the correspondence/oracle harness for property C18.
+// Package c18 is the correspondence/oracle harness for property C18:
+// multi-part documents are read in their declared order.
 package c18
 
-import "verifharness/hx"
+import (
+	"fmt"
+	"os"
+	"path/filepath"
+	"strings"
+
+	"github.com/tsawler/tabula"
+	"github.com/tsawler/tabula/epubdoc"
+	"github.com/tsawler/tabula/model"
+	"github.com/tsawler/tabula/pptx"
+	"github.com/tsawler/tabula/xlsx"
+
+	"verifharness/hx"
+	"verifharness/writers"
+)
 
 func init() { hx.Register("C18", Run, Replay) }
 
-// Run is not built yet for this property.
-func Run(c *hx.Ctx) { c.Note("C18: harness not built") }
+type kase struct {
+	Seed  uint64 `json:"seed"`
+	Index int    `json:"index"`
+	Fmt   string `json:"fmt"`
+	File  string `json:"file,omitempty"`
+}
 
-func Replay(c *hx.Ctx, kase map[string]interface{}) {}
+// observation = what the format reader and the tabula front door showed.
+type observation struct {
+	opened   bool
+	openErr  string
+	pages    []string // per part, the text the format reader holds for it
+	names    []string // xlsx: SheetNames()
+	tOpened  bool
+	tErr     string
+	tCount   int
+	tText    string
+	docPages []string
+	panicked string
+}
+
+func pageText(pg *model.Page) string {
+	var b strings.Builder
+	for _, el := range pg.Elements {
+		switch e := el.(type) {
+		case *model.Heading:
+			b.WriteString(e.Text + "\n")
+		case *model.Paragraph:
+			b.WriteString(e.Text + "\n")
+		case *model.List:
+			for _, it := range e.Items {
+				b.WriteString(it.Text + "\n")
+			}
+		case *model.Table:
+			for _, row := range e.Rows {
+				for _, cell := range row {
+					b.WriteString(cell.Text + "\t")
+				}
+				b.WriteString("\n")
+			}
+		}
+	}
+	b.WriteString(pg.ExtractText())
+	return b.String()
+}
+
+// tokenCid finds which member's token a text carries ("?" when none or several).
+func tokenCid(p *pkg, text string) string {
+	found := ""
+	try := func(d part) {
+		if d.Tok != "" && d.Name != "" && strings.Contains(text, d.Tok) {
+			if found != "" {
+				found = "?multi"
+			} else {
+				found = fmt.Sprint(p.cidOf(d.Name))
+			}
+		}
+	}
+	for _, d := range p.Declared {
+		try(d)
+	}
+	for _, d := range p.Decoys {
+		try(d)
+	}
+	if found == "" {
+		return "?"
+	}
+	return found
+}
+
+// observe runs the implementation on the written package and returns the impl
+// line of the correspondence together with what the oracles need.
+func observe(p *pkg, path string) (string, *observation) {
+	o := &observation{}
+	line := "err"
+	o.panicked = hx.Safe(func() {
+		switch p.Fmt {
+		case "xlsx":
+			rd, err := xlsx.Open(path)
+			if err != nil {
+				o.openErr = err.Error()
+				return
+			}
+			defer rd.Close()
+			o.opened = true
+			o.names = rd.SheetNames()
+			var out []string
+			for i := 0; i < rd.SheetCount(); i++ {
+				s, _ := rd.Sheet(i)
+				var b strings.Builder
+				for _, row := range s.Rows {
+					for _, cell := range row {
+						b.WriteString(cell.Value + "\t")
+					}
+					b.WriteString("\n")
+				}
+				o.pages = append(o.pages, b.String())
+				out = append(out, fmt.Sprintf("%d:%s:%s", s.Index, tokenCid(p, b.String()), hx.HexS(s.Name)))
+			}
+			line = strings.TrimSpace("ok " + strings.Join(out, " "))
+		case "pptx":
+			rd, err := pptx.Open(path)
+			if err != nil {
+				o.openErr = err.Error()
+				return
+			}
+			defer rd.Close()
+			o.opened = true
+			var out []string
+			for i := 0; i < rd.SlideCount(); i++ {
+				s, _ := rd.Slide(i)
+				t := s.GetText()
+				o.pages = append(o.pages, t)
+				out = append(out, fmt.Sprintf("%d:%s", s.Index, tokenCid(p, t)))
+			}
+			line = strings.TrimSpace("ok " + strings.Join(out, " "))
+		case "epub":
+			rd, err := epubdoc.Open(path)
+			if err != nil {
+				o.openErr = err.Error()
+				return
+			}
+			defer rd.Close()
+			o.opened = true
+			byContent := map[string]int{}
+			for i, d := range p.Docs {
+				byContent[string(d.data)] = i + 1
+			}
+			var out []string
+			for _, ch := range rd.Chapters() {
+				o.pages = append(o.pages, string(ch.Content))
+				cid := "?"
+				if id, ok := byContent[string(ch.Content)]; ok {
+					cid = fmt.Sprint(id)
+				}
+				out = append(out, fmt.Sprintf("%d:%s:%s:%s", ch.Index, cid, hx.HexS(ch.Href), hx.HexS(ch.ID)))
+			}
+			line = strings.TrimSpace("ok " + strings.Join(out, " "))
+		}
+	})
+	if o.panicked != "" {
+		return "panic", o
+	}
+	o.panicked = hx.Safe(func() {
+		ext := tabula.Open(path)
+		defer ext.Close()
+		n, err := ext.PageCount()
+		if err != nil {
+			o.tErr = err.Error()
+			return
+		}
+		o.tOpened, o.tCount = true, n
+		txt, _, err := tabula.Open(path).Text()
+		if err != nil {
+			o.tErr = "Text: " + err.Error()
+		}
+		o.tText = txt
+		doc, _, err := tabula.Open(path).Document()
+		if err != nil || doc == nil {
+			o.tErr = fmt.Sprint("Document: ", err)
+			return
+		}
+		for _, pg := range doc.Pages {
+			o.docPages = append(o.docPages, pageText(pg))
+		}
+	})
+	return line, o
+}
+
+func hasDotSeg(ref string) bool {
+	for _, s := range strings.Split(ref, "/") {
+		if s == "." || s == ".." {
+			return true
+		}
+	}
+	return false
+}
+
+// missKey names the failure class when an expected part is not shown.
+func missKey(p *pkg, d part) string {
+	switch p.Fmt {
+	case "xlsx":
+		return "C18/xlsx-sheet-order"
+	case "pptx":
+		return "C18/pptx-slide-order"
+	}
+	if strings.ContainsAny(d.Ref, "%+") {
+		return "C18/href-percent-decoding"
+	}
+	if strings.Contains(d.Ref, "/") || hasDotSeg(d.Ref) {
+		return "C18/href-relative-resolution"
+	}
+	return "C18/epub-spine-order"
+}
+
+func orderKey(p *pkg) string {
+	switch p.Fmt {
+	case "xlsx":
+		return "C18/xlsx-sheet-order"
+	case "pptx":
+		return "C18/pptx-slide-order"
+	}
+	return "C18/epub-spine-order"
+}
+
+// oracles: the statement of C18 evaluated directly on what the implementation
+// showed, using only the logical package (declared list, states, tokens).
+func oracles(c *hx.Ctx, p *pkg, k kase, o *observation) {
+	E := p.expected()
+	var forbidden []part
+	for _, d := range p.Declared {
+		if d.State != stOK && d.Tok != "" {
+			forbidden = append(forbidden, d)
+		}
+	}
+	forbidden = append(forbidden, p.Decoys...)
+	f := p.Fmt
+	desc := func() string {
+		var b strings.Builder
+		fmt.Fprintf(&b, "%s/%s declared=[", p.Fmt, p.Variant)
+		for _, d := range p.Declared {
+			fmt.Fprintf(&b, "{%s ref=%q name=%q st=%d} ", d.Tok, d.Ref, d.Name, d.State)
+		}
+		b.WriteString("] zip=[")
+		for _, i := range p.ZipOrder {
+			b.WriteString(p.Docs[i].name + " ")
+		}
+		b.WriteString("]")
+		return b.String()
+	}
+	if len(E) == 0 {
+		// nothing declared is readable: the reader must not present anything else instead
+		shown := false
+		for _, d := range forbidden {
+			if strings.Contains(o.tText, d.Tok) || strings.Contains(strings.Join(o.pages, "\x00"), d.Tok) {
+				shown = true
+			}
+		}
+		c.Check("C18/decoy-included-"+f, !shown, k, func() string {
+			return "no declared part is readable, yet an undeclared part is presented; " + desc()
+		})
+		c.Check("C18/page-count-"+f, !o.opened || len(o.pages) == 0, k, func() string {
+			return fmt.Sprintf("no declared part is readable but %d part(s) reported; %s", len(o.pages), desc())
+		})
+		return
+	}
+	// every expected part is shown (by the format reader) ...
+	idxOf := func(text string) int { // index in E of the expected token a page carries
+		for i, d := range E {
+			if strings.Contains(text, d.Tok) {
+				return i
+			}
+		}
+		return -1
+	}
+	for _, d := range E {
+		seen := false
+		for _, pg := range o.pages {
+			if strings.Contains(pg, d.Tok) {
+				seen = true
+			}
+		}
+		c.Check(missKey(p, d), seen, k, func() string {
+			return fmt.Sprintf("declared readable part %s (ref %q -> member %q) is not presented (open error %q); %s", d.Tok, d.Ref, d.Name, o.openErr, desc())
+		})
+	}
+	// ... in declared order
+	last, inOrder := -1, true
+	var seq []int
+	for _, pg := range o.pages {
+		i := idxOf(pg)
+		seq = append(seq, i)
+		if i >= 0 {
+			if i <= last {
+				inOrder = false
+			}
+			last = i
+		}
+	}
+	c.Check(orderKey(p), inOrder, k, func() string {
+		return fmt.Sprintf("parts presented in order %v of the declared readable list (want ascending); %s", seq, desc())
+	})
+	if f == "xlsx" && o.opened {
+		var want []string
+		for _, d := range E {
+			want = append(want, d.Title)
+		}
+		c.Check("C18/xlsx-sheet-order", strings.Join(want, "\x00") == strings.Join(o.names, "\x00"), k, func() string {
+			return fmt.Sprintf("SheetNames()=%q want %q; %s", o.names, want, desc())
+		})
+	}
+	// the front door: count, order in Text(), own page, leaks, decoys
+	c.Check("C18/page-count-"+f, o.opened && len(o.pages) == len(E), k, func() string {
+		return fmt.Sprintf("format reader reports %d part(s), %d declared readable (open error %q); %s", len(o.pages), len(E), o.openErr, desc())
+	})
+	c.Check("C18/page-count-"+f, o.tOpened && o.tCount == len(E), k, func() string {
+		return fmt.Sprintf("tabula.Open.PageCount()=%d (err %q), %d declared readable; %s", o.tCount, o.tErr, len(E), desc())
+	})
+	c.Check("C18/page-count-"+f, len(o.docPages) == len(E), k, func() string {
+		return fmt.Sprintf("Document() has %d pages (err %q), %d declared readable; %s", len(o.docPages), o.tErr, len(E), desc())
+	})
+	pos, asc := -1, true
+	for _, d := range E {
+		at := strings.Index(o.tText, d.Tok)
+		if at < 0 {
+			continue // reported by the missing-part check
+		}
+		if at < pos {
+			asc = false
+		}
+		pos = at
+	}
+	c.Check(orderKey(p), asc, k, func() string {
+		return fmt.Sprintf("Text() does not carry the parts' tokens in declared order; %s", desc())
+	})
+	for i, d := range E {
+		own := i < len(o.docPages) && strings.Contains(o.docPages[i], d.Tok)
+		c.Check("C18/text-in-own-page-"+f, own, k, func() string {
+			return fmt.Sprintf("Document().Pages[%d] does not contain the text of declared part %d (%s); %s", i, i, d.Tok, desc())
+		})
+		// "and only there": the part's text is in one page only and once in Text()
+		inDoc, inRd := 0, 0
+		for _, pg := range o.docPages {
+			if strings.Contains(pg, d.Tok) {
+				inDoc++
+			}
+		}
+		for _, pg := range o.pages {
+			if strings.Contains(pg, d.Tok) {
+				inRd++
+			}
+		}
+		leaks := strings.Count(o.tText, d.Tok) > 1 || inDoc > 1 || inRd > 1
+		c.Check("C18/text-leaks-"+f, !leaks, k, func() string {
+			return fmt.Sprintf("text of declared part %d (%s) appears in %d Document pages, %d reader parts, %d times in Text(); %s", i, d.Tok, inDoc, inRd, strings.Count(o.tText, d.Tok), desc())
+		})
+	}
+	for _, d := range forbidden {
+		shown := strings.Contains(o.tText, d.Tok)
+		for _, pg := range append(append([]string{}, o.pages...), o.docPages...) {
+			if strings.Contains(pg, d.Tok) {
+				shown = true
+			}
+		}
+		c.Check("C18/decoy-included-"+f, !shown, k, func() string {
+			return fmt.Sprintf("undeclared/unreadable part %s (member %q, listed-in-rels/manifest=%v, state %d) is presented; %s", d.Tok, d.Name, d.InManifest, d.State, desc())
+		})
+	}
+}
+
+var exts = map[string]string{"xlsx": ".xlsx", "pptx": ".pptx", "epub": ".epub"}
+
+func genCase(r *hx.Rng, idx int) *pkg {
+	switch idx % 3 {
+	case 0:
+		return genXLSX(r)
+	case 1:
+		return genPPTX(r)
+	}
+	return genEPUB(r)
+}
+
+// RunCase generates package #idx of the seed's stream, runs tabula on it and
+// evaluates correspondence and oracles.
+func RunCase(c *hx.Ctx, idx int, keep bool) {
+	r := c.Rng.Fork(uint64(idx))
+	p := genCase(r, idx)
+	path := filepath.Join(c.OutDir, fmt.Sprintf("c18-%d%s", idx, exts[p.Fmt]))
+	if err := os.WriteFile(path, writers.Zip(p.members()), 0o644); err != nil {
+		panic(err)
+	}
+	if !keep {
+		defer os.Remove(path)
+	}
+	k := kase{Seed: c.Seed, Index: idx, Fmt: p.Fmt}
+	if keep {
+		k.File = path
+	}
+	line, o := observe(p, path)
+	c.Check("C18/panic", o.panicked == "", k, func() string { return "panic: " + o.panicked })
+	c.Op(p.opLine(), line)
+	if p.Oracle && o.panicked == "" {
+		oracles(c, p, k, o)
+	}
+	// distribution of what was generated
+	c.Count(p.Fmt + "/" + p.Variant)
+	if !p.Oracle {
+		c.Count("correspondence-only")
+	}
+	for _, n := range p.Notes {
+		c.Count("note:" + n)
+	}
+	E := p.expected()
+	c.Count(fmt.Sprintf("%s/declared-readable=%d", p.Fmt, len(E)))
+	if len(E) < len(p.Declared) {
+		c.Count(p.Fmt + "/has-unreadable-declared")
+	}
+	if len(p.Decoys) > 0 {
+		c.Count(p.Fmt + "/has-decoys")
+	}
+	if len(E) > 1 {
+		var names []string
+		zipPos := map[string]int{}
+		for k, i := range p.ZipOrder {
+			zipPos[p.Docs[i].name] = k
+		}
+		zipAsc := true
+		for i, d := range E {
+			names = append(names, d.Name)
+			if i > 0 && zipPos[d.Name] < zipPos[E[i-1].Name] {
+				zipAsc = false
+			}
+		}
+		if !isSortedStrings(names) {
+			c.Count(p.Fmt + "/declared!=name-order")
+		}
+		if !zipAsc {
+			c.Count(p.Fmt + "/declared!=zip-order")
+		}
+	}
+	if p.Fmt == "epub" {
+		for _, d := range E {
+			if strings.Contains(d.Ref, "+") {
+				c.Count("epub/href-with-plus")
+			}
+			if strings.Contains(d.Ref, "%") {
+				c.Count("epub/href-percent-encoded")
+			}
+			if hasDotSeg(d.Ref) {
+				c.Count("epub/href-dot-segments")
+			}
+		}
+	}
+	c.Case(p.opLine(), o.opened && len(o.pages) > 0)
+}
+
+// ---- href resolution ----------------------------------------------------------
+
+var hrefJunk = []string{"%", "%2", "%zz", "%41", "%2F", "%2f", "+", " ", "/", "//", ".", "..", "a", "é", "%C3%A9", "#x", "?q=1", "%00", "ch", ".xhtml", "%2B", "%25", "%2e"}
+
+func hrefOps(c *hx.Ctx, from, n int) {
+	for i := from; i < from+n; i++ {
+		r := c.Rng.Fork(uint64(1_000_000 + i))
+		base := dirOf(hx.Pick(r, opfPaths))
+		if r.Chance(1, 8) {
+			base = hx.Pick(r, []string{"a//b", "a/./b", "a/../b", "..", "a/", "/abs", "x/y/../../.."})
+		}
+		k := kase{Seed: c.Seed, Index: i, Fmt: "href"}
+		if r.Chance(2, 3) {
+			// structured: the reference is built from the member it must denote
+			clean := !strings.ContainsAny(base, ".") && !strings.Contains(base, "//") && !strings.HasSuffix(base, "/") && !strings.HasPrefix(base, "/")
+			if !clean {
+				base = dirOf(hx.Pick(r, opfPaths))
+			}
+			name := joinName(strings.Trim(hx.Pick(r, []string{base, joinName(base, "text"), dirOf(base), "", "other/dir", joinName(base, "深い/階層")}), "/"),
+				fmt.Sprintf(hx.Pick(r, chapterNames), r.Range(1, 99)))
+			segs, _ := relRef(r, base, name)
+			ref := encodeRef(r, segs, r.Intn(4))
+			got := epubdoc.VerifResolveHref(base, ref)
+			key := "C18/href-relative-resolution"
+			if strings.ContainsAny(ref, "%+") {
+				key = "C18/href-percent-decoding"
+			}
+			c.Check(key, got == name, map[string]interface{}{"seed": c.Seed, "index": i, "fmt": "href", "base": base, "href": ref}, func() string {
+				return fmt.Sprintf("resolveHref(base %q, href %q) = %q, the reference denotes member %q", base, ref, got, name)
+			})
+			c.Op("c18.href "+hx.HexS(base)+" "+hx.HexS(ref), hx.HexS(got))
+			c.Count("href/structured")
+			c.Case("href "+base+" "+ref, true)
+			continue
+		}
+		var sb strings.Builder
+		for j, m := 0, r.Range(0, 5); j < m; j++ {
+			sb.WriteString(hx.Pick(r, hrefJunk))
+		}
+		ref := sb.String()
+		got := ""
+		pn := hx.Safe(func() { got = epubdoc.VerifResolveHref(base, ref) })
+		c.Check("C18/panic", pn == "", k, func() string { return "resolveHref panic: " + pn })
+		c.Op("c18.href "+hx.HexS(base)+" "+hx.HexS(ref), hx.HexS(got))
+		c.Count("href/junk")
+		c.Case("href "+base+" "+ref, false)
+	}
+}
+
+func Run(c *hx.Ctx) {
+	c.Rep.Rule = "packages: XLSX / PPTX / EPUB 2+3 written by the harness's own writers from a logical package = declared list (1-6 parts, each with a unique text token; states ok/missing/malformed/dangling/wrong-kind), decoy parts (unreferenced; some listed in rels/manifest but not declared), part paths nested/renamed/absolute/with dot segments, file numbers a random permutation of the declared order, ZIP member order another random permutation, optional parts (rels, sharedStrings, docProps, mimetype, NCX, nav) randomly absent; hrefs percent-encoded in 4 styles incl. space, unicode, '+', '%', '#'. href ops: structured (reference built from the member it denotes) and junk strings. non-trivial = the package opened with at least one part; distinct by op line"
+	n := c.N(600, 9000)
+	only := os.Getenv("C18_FMT") // debugging aid: restrict the stream to one format
+	for i := 0; i < n; i++ {
+		if only != "" && only != []string{"xlsx", "pptx", "epub"}[i%3] {
+			continue
+		}
+		RunCase(c, i, false)
+	}
+	if only == "" || only == "href" {
+		hrefOps(c, 0, c.N(1500, 20000))
+	}
+}
+
+// Replay re-runs one recorded failing case on the implementation.
+func Replay(c *hx.Ctx, k map[string]interface{}) {
+	idx, _ := k["index"].(float64)
+	if f, _ := k["fmt"].(string); f == "href" {
+		hrefOps(c, int(idx), 1)
+		return
+	}
+	RunCase(c, int(idx), true)
+}
